@@ -523,6 +523,72 @@ def part_builtin_matrix(ctx, tmp):
     return stats, n, n_exec
 
 
+def part_cf_exec(ctx, tmp):
+    """seeded control-flow programs (word locals: vlib/c18_corpus.gen_cf_program; memory arrays, ternaries of arrays, internal
+    calls with array arguments / results, DynArray append / pop, storage copies: vlib/c20_cf_gen.gen_cf_mem_program), none of
+    which can revert: outcome classification under the 7 matrix configurations, then every configuration must return the same
+    word as legacy-none on 4 inputs."""
+    from eth_abi import encode
+    from eth_utils import keccak
+    from vlib import c20_cf_gen
+    from vlib.c18_corpus import gen_cf_program
+    from vlib.evm import Chain
+    rnd = ctx.rng("cfexec")
+    n_word, n_mem = (6, 14) if ctx.tier == "quick" else (60, 240)
+    items = []
+    for i in range(n_word):
+        items.append({"id": f"cfw{i}", "src": gen_cf_program(rnd), "how": "cf-exec:words", "base": f"cfw{i}"})
+    for i in range(n_mem):
+        items.append({"id": f"cfm{i}", "src": c20_cf_gen.gen_cf_mem_program(rnd), "how": "cf-exec:memory", "base": f"cfm{i}"})
+    nsh = 3
+    shards = [items[k::nsh] for k in range(nsh)]
+    with ThreadPoolExecutor(max_workers=nsh) as ex:
+        rows = [r for rs in ex.map(lambda k: run_shard(tmp, 40 + k, [{"id": it["id"], "src": it["src"]} for it in shards[k]], 20,
+                                                       MATRIX_CONFIGS, want_bytecode=True), range(nsh)) for r in rs]
+    stats, n = classify_rows(ctx, rows, items, "valid", tag="cfexec")
+    by_id = {it["id"]: it for it in items}
+    sel = keccak(b"f(uint256,uint256)")[:4]
+    inputs = [(0, 0), (1, 2), (5, 2 ** 255 + 3), (2 ** 256 - 1, 7)]
+    n_exec = 0
+    reported = set()
+    for r in rows:
+        runs = r["runs"]
+        if r["front"]["outcome"] != "output":
+            ctx.violation("correspondence-broken", "a generated control-flow program is rejected by the front end",
+                          {"source": by_id[r["id"]]["src"], "outcome": r["front"]})
+            break
+        if any(o["outcome"] != "output" for o in runs.values()) or len(runs) < len(MATRIX_CONFIGS):
+            continue
+        res = {}
+        for cfgname, o in runs.items():
+            ch = Chain("prague")
+            addr = ch.deploy(bytes.fromhex(o["bytecode"][2:]))
+            outs = []
+            for x, y in inputs:
+                rr = ch.call(addr, sel + encode(["uint256", "uint256"], [x, y])) if addr is not None else None
+                outs.append("deploy-failed" if rr is None else (rr.out.hex() if rr.ok else "revert"))
+                n_exec += 1
+            res[cfgname] = outs
+        ref = res["legacy-none"]
+        for cfgname, outs in res.items():
+            if outs != ref:
+                it = by_id[r["id"]]
+                kind = it["how"].split(":")[1]
+                pipeline = "legacy" if cfgname.startswith("legacy") else "venom"
+                key = f"C20M:disagree:cf-{kind}:{pipeline}"
+                if key in reported:
+                    continue
+                reported.add(key)
+                k = [i for i in range(len(inputs)) if outs[i] != ref[i]][0]
+                ctx.violation("failing-input", f"control-flow program: {cfgname} returns a different word than legacy-none",
+                              {"source": it["src"], "input": [str(v) for v in inputs[k]], "legacy-none": ref[k], cfgname: outs[k],
+                               "all_results": res}, key=key)
+    ctx.corr["cfexec_programs"] = n
+    ctx.corr["cfexec_calls"] = n_exec
+    ctx.corr["cfexec_disagreements"] = sorted(reported)
+    return stats, n, n_exec
+
+
 def classify_rows(ctx, rows, items, part, tag=None):
     by_id = {it["id"]: it for it in items}
     stats = collections.Counter()
@@ -714,6 +780,7 @@ def run(ctx):
         vstats, n_valid = part_valid(ctx, tmp)
         estats, n_env = part_env_matrix(ctx, tmp)
         mstats, n_matrix, n_matrix_exec = part_builtin_matrix(ctx, tmp)
+        cstats, n_cf, n_cf_exec = part_cf_exec(ctx, tmp)
         r_arity = probe_arity(ctx)
         from vlib import c20_pow
         n_pow = c20_pow.run(ctx)
@@ -752,7 +819,7 @@ def run(ctx):
     if not b["ok"] and len(ctx.violations) + len(ctx.known_hits) == nv0:
         ctx.violation("theorem-broken", f"{b.get('failed_lemma')} in {b['file']}",
                       {"theorem": b.get("failed_lemma"), "file": b["file"], "coq_output": b["out"][-1500:]})
-    ctx.corr["evaluations"] = int(stats["compilations"]) + int(vstats["compilations"]) + int(estats["compilations"]) + int(mstats["compilations"]) + n_matrix_exec + n_dense + 4 + n_pow
+    ctx.corr["evaluations"] = int(stats["compilations"]) + int(vstats["compilations"]) + int(estats["compilations"]) + int(mstats["compilations"]) + n_matrix_exec + int(cstats["compilations"]) + n_cf_exec + n_dense + 4 + n_pow
     ctx.corr["distinct_nontrivial"] = n_items + n_valid + n_dense + 4 + n_pow
     ctx.corr["rule"] = "distinct source texts (unchanged + mutated) each compiled by the front end and up to 4 (quick) / 8 back-end configs; dense id sets; 3 targeted probes"
     ctx.extra["explanation"] = (
